@@ -96,7 +96,7 @@ def dgateRaw (car : Carrier α) (name : String) (q : List Int) (κ : α) (p : Li
 
 /-- one basic program step: `u:<t>:<U>`, `c:<c>:<t>:<U>`, `m:<s>:<bits>`, `x:<U>` (entries appended as they are),
 `v:<name>:<qubits>:<pairs>` (a named gate method, read through `Vocab.toRaw`), `dv:…` (derivative entry), `s:<delta>`
-(`shift_qubit_index_`), `n` (an entry `apply_state` refuses) -/
+(`shift_qubit_index_`), `n:p:<t>` / `n:k` (an entry `apply_state` refuses: never-set placeholder at its index / Kraus entry) -/
 def parseStep0 (car : Carrier α) (s : String) : Option (Stmt0 α) :=
   match s.splitOn ":" with
   | ["u", t, u] => do let t ← parseIdx? t; let u ← parseArr car u; pure (.gate (.unitary u t))
@@ -105,7 +105,8 @@ def parseStep0 (car : Carrier α) (s : String) : Option (Stmt0 α) :=
   | ["m", sq, b] => do let sq ← parseIdx? sq; let b ← parseBits? b; pure (.gate (.measure sq b))
   | ["x", u] => do let u ← parseArr car u; pure (.gate (.custom u))
   | ["s", d] => do let d ← d.toInt?; pure (.shift d)
-  | ["n"] => some .unsupported
+  | ["n", "k"] => some (.refused .nonCanonical)
+  | ["n", "p", t] => do let t ← parseIdx? t; pure (.refused (.placeholder t))
   | ["dv", name, q, k, p] => do
       let q ← parseIdx? q; let k ← car.parse k; let p ← parsePairs car p; let g ← dgateRaw car name q k p; pure (.gate g)
   | ["v", name, q, p] => do
@@ -119,14 +120,13 @@ def parseStep (car : Carrier α) (s : String) : Option (Stmt α) :=
     if body = "" then some (.extend []) else ((body.splitOn "!").mapM (parseStep0 car)).map .extend
   else (parseStep0 car s).map .base
 
-/-- parse the program text and run it with the model's `runProg`: the content of `gate_index_list`;
-outer `none` = malformed text, inner `none` = the circuit holds an entry `apply_state` refuses -/
+/-- parse the program text and run it with the model's `runProg`: the content of `gate_index_list`; `none` = malformed text.
+A refused entry is in the list with its real index and an empty array: `width`/`indices` see it, every consumer that applies the
+circuit answers `error` (`C03.refused_not_compiled`). -/
 def parseProg (car : Carrier α) (s : String) : Option (List (RawOp α)) :=
   if s = "-" then some [] else do
     let steps ← (s.splitOn "|").mapM (parseStep car)
-    match runProg car.I steps with
-    | some l => pure l
-    | none => pure [RawOp.unitary #[] []]     -- an entry no register accepts: every consumer answers `error`
+    pure (runProg car.I steps)
 
 def log2? (len : Nat) : Option Nat := (List.range 16).find? fun n => 2 ^ n == len
 
@@ -221,9 +221,10 @@ def handleR (car : Carrier α) (args : List String) : String :=
       let some q := parseIdx? q | return "bad-op"
       let some p := parsePairs car p | return "bad-op"
       let some v := parseVocab name q p | return "bad-op"
-      match v.toRaw car.I with
-      | .unitary u t => return s!"u {intListStr t} {strArr car u}"
-      | .control u c t => return s!"c {intListStr c} {intListStr t} {strArr car u}"
+      -- the entry the method call leaves in `gate_index_list` (the statement, i.e. with the control set canonicalised)
+      match runProg car.I [.base (.call v)] with
+      | [.unitary u t] => return s!"u {intListStr t} {strArr car u}"
+      | [.control u c t] => return s!"c {intListStr c} {intListStr t} {strArr car u}"
       | _ => return "bad-op"
   | ["indices", prog] => Id.run do
       -- the index part of `gate_index_list` after all appends and in-place shifts of the program
